@@ -21,6 +21,9 @@ def main():
     import subprocess
     subprocess.run(['/usr/bin/cvc5', '--version'], capture_output=True, check=True)
     subprocess.run(['/venv/bin/python', '-c', 'import cardutil'], capture_output=True, check=True)
+    from pyvc import difftest
+    rc = difftest.main()
+    assert rc == 0, 'engine disagrees with CPython on a concrete case'
     print('pyvc selftest ok (z3 %s)' % z3.get_version_string())
 
 
